@@ -37,13 +37,13 @@ theorem fileName_slash (r : Bytes) : fileName (47 :: r) =
   rw [backPieces_slash]
   cases trimTriv (splitSep r).reverse <;> rfl
 
-theorem addData_slash (r : Bytes) : addData (47 :: r) =
+theorem addData_slash (r : Bytes) : addDataRaw (47 :: r) =
     match trimTriv (splitSep r).reverse with
     | [] => errDest
     | s :: rest =>
       if s == [46, 46] then errDest
       else .ok (46 :: 47 :: r, dirOf (joinSep (trimTriv rest).reverse), s) := by
-  unfold addData
+  unfold addDataRaw
   rw [parent_slash, fileName_slash]
   cases trimTriv (splitSep r).reverse with
   | nil => simp [strStartsWith]
@@ -122,13 +122,13 @@ theorem stripPrefixDot_dot_cons {x : Bytes} (h : includeCurDir (46 :: x) = true)
 def dotDirText (rest : List Bytes) : Bytes :=
   joinSep (trimTriv (trimTriv (splitSep (joinSep (trimTriv rest).reverse))).reverse).reverse
 
-theorem addData_dot (r : Bytes) : addData (46 :: 47 :: r) =
+theorem addData_dot (r : Bytes) : addDataRaw (46 :: 47 :: r) =
     match trimTriv (splitSep (47 :: r)).reverse with
     | [] => errDest
     | s :: rest =>
       if s == [46, 46] then errDest
       else .ok (46 :: 47 :: r, dirOf (dotDirText rest), s) := by
-  unfold addData
+  unfold addDataRaw
   rw [parent_dot, fileName_dot]
   cases h : trimTriv (splitSep (47 :: r)).reverse with
   | nil => simp [strStartsWith, stripPrefixDot_nil, errDest]
@@ -248,19 +248,19 @@ theorem start_cases (dest : Bytes) :
         simp [strStartsWith, List.isPrefixOf, h1, h2]
 
 theorem addData_bad_start {dest : Bytes}
-    (h : strStartsWith dest [46, 47] = false ∧ strStartsWith dest [47] = false) : addData dest = errDest := by
-  unfold addData
+    (h : strStartsWith dest [46, 47] = false ∧ strStartsWith dest [47] = false) : addDataRaw dest = errDest := by
+  unfold addDataRaw
   simp [h.1, h.2]
 
 /-! ### accepted destinations, both directions, both shapes -/
 
 theorem addData_slash_of_pieces {r name : Bytes} {tl J : List Bytes} (hS : splitSep r = tl ++ name :: J)
     (hJ : ∀ y ∈ J, isTriv y = true) (hn : isTriv name = false) (hdd : name ≠ [46, 46]) :
-    addData (47 :: r) = .ok (46 :: 47 :: r, dirOf (joinSep (trimTriv tl.reverse).reverse), name) := by
+    addDataRaw (47 :: r) = .ok (46 :: 47 :: r, dirOf (joinSep (trimTriv tl.reverse).reverse), name) := by
   rw [addData_slash, hS, trimTriv_reverse_of_pieces hJ hn]
   simp [hdd]
 
-theorem addData_slash_ok {r cpio dir base : Bytes} (h : addData (47 :: r) = .ok (cpio, dir, base)) :
+theorem addData_slash_ok {r cpio dir base : Bytes} (h : addDataRaw (47 :: r) = .ok (cpio, dir, base)) :
     ∃ tl J, splitSep r = tl ++ base :: J ∧ (∀ y ∈ J, isTriv y = true) ∧ isTriv base = false ∧
       base ≠ [46, 46] ∧ cpio = 46 :: 47 :: r ∧ dir = dirOf (joinSep (trimTriv tl.reverse).reverse) := by
   rw [addData_slash] at h
@@ -278,12 +278,12 @@ theorem addData_slash_ok {r cpio dir base : Bytes} (h : addData (47 :: r) = .ok 
 
 theorem addData_dot_of_pieces {r name : Bytes} {tl J : List Bytes} (hS : splitSep r = tl ++ name :: J)
     (hJ : ∀ y ∈ J, isTriv y = true) (hn : isTriv name = false) (hdd : name ≠ [46, 46]) :
-    addData (46 :: 47 :: r) = .ok (46 :: 47 :: r, dirOf (dotDirText ([] :: tl).reverse), name) := by
+    addDataRaw (46 :: 47 :: r) = .ok (46 :: 47 :: r, dirOf (dotDirText ([] :: tl).reverse), name) := by
   have hS' : splitSep (47 :: r) = ([] :: tl) ++ name :: J := by rw [splitSep_cons_sep, hS]; rfl
   rw [addData_dot, hS', trimTriv_reverse_of_pieces hJ hn]
   simp [hdd]
 
-theorem addData_dot_ok {r cpio dir base : Bytes} (h : addData (46 :: 47 :: r) = .ok (cpio, dir, base)) :
+theorem addData_dot_ok {r cpio dir base : Bytes} (h : addDataRaw (46 :: 47 :: r) = .ok (cpio, dir, base)) :
     ∃ tl J, splitSep r = tl ++ base :: J ∧ (∀ y ∈ J, isTriv y = true) ∧ isTriv base = false ∧
       base ≠ [46, 46] ∧ cpio = 46 :: 47 :: r ∧ dir = dirOf (dotDirText ([] :: tl).reverse) := by
   rw [addData_dot] at h
